@@ -24,6 +24,7 @@ import Driver.WIntH
 import Driver.InterBUH
 import Driver.ZWidenH
 import Driver.XDomH
+import Driver.RProgH
 
 /-!
   crabdrv : line-protocol driver.  Reads cases on stdin, one per line
@@ -60,6 +61,7 @@ def dispatch (comp op : String) (args res : List Sexp) : Verdict :=
   | "inter" => handleInter2 op args res
   | "zw" => handleZw op args res
   | "xdom" => handleXDom op args res
+  | "rprog" => handleRprog op args res
   | "idom" => handleIDom op args res
   | "prog" => handleProg op args res
   | "exact" => handleExact op args res
